@@ -62,7 +62,7 @@ def plan(tier: str, seed: int) -> Plan:
     ]
     for f in range(7):
         conds.append(Condition(f"typing-history:{f}", "typing", H, "typing_history", {"flo": f, "fhi": f}, T * 2, required=False,
-                               bounds="one call template: a first compilation with one of 5 argument kinds, then every argument kind at every "
+                               bounds="one call template: a first compilation with one of 3 argument kinds, then one argument of each of 6 kinds at every "
                                       "parameter position, on one fresh environment (state carried between compilations)"))
     obls = [det(t, False) for t in MUST_REJECT] + [det(t, True) for t in MUST_ACCEPT]
     from props import lane_r
